@@ -9,6 +9,7 @@ import (
 	"path/filepath"
 	"runtime"
 	"strings"
+	"sync"
 
 	dtpb "github.com/google/fhir/go/proto/google/fhir/proto/r4/core/datatypes_go_proto"
 	"github.com/verily-src/fhirpath-go/fhirpath/patch"
@@ -122,7 +123,7 @@ func presence(m protoreflect.Message, b *strings.Builder) {
 // inside m (the same pointer stored at two places). The annotated tree is an
 // abstraction of a tree-shaped object graph only; a shared sub-object means a
 // later patch of one element changes another.
-func sharedPointers(m proto.Message) int {
+func sharedPointers(m proto.Message) (int, map[proto.Message]int) {
 	seen := map[proto.Message]int{}
 	var rec func(x protoreflect.Message)
 	rec = func(x protoreflect.Message) {
@@ -153,6 +154,53 @@ func sharedPointers(m proto.Message) int {
 	n := 0
 	for _, c := range seen {
 		if c > 1 {
+			n++
+		}
+	}
+	return n, seen
+}
+
+// retained keeps the final resources of the most recent behaviours of this
+// process alive (so their addresses cannot be reused) together with the set of
+// their message objects. A resource under patch must not contain any of them:
+// every resource is parsed afresh and every value is a fresh clone, so a hit
+// means the implementation handed one object to two resources.
+var retained struct {
+	sync.RWMutex
+	ring [64]struct {
+		res  proto.Message
+		ptrs map[proto.Message]int
+	}
+	next int
+	all  map[proto.Message]int
+}
+
+func retain(res proto.Message) {
+	_, ptrs := sharedPointers(res)
+	retained.Lock()
+	defer retained.Unlock()
+	if retained.all == nil {
+		retained.all = map[proto.Message]int{}
+	}
+	slot := &retained.ring[retained.next%len(retained.ring)]
+	for p := range slot.ptrs {
+		if retained.all[p]--; retained.all[p] <= 0 {
+			delete(retained.all, p)
+		}
+	}
+	slot.res, slot.ptrs = res, ptrs
+	for p := range ptrs {
+		retained.all[p]++
+	}
+	retained.next++
+}
+
+func sharedWithRetained(ptrs map[proto.Message]int) int {
+	retained.RLock()
+	defer retained.RUnlock()
+	n := 0
+	for p := range ptrs {
+		if retained.all[p] > 0 {
 			n++
 		}
 	}
@@ -331,9 +379,18 @@ func runBehaviour(pool *Pool, b Behaviour) map[string]any {
 		eq, det, has := before.same(res)
 		rec["eq"], rec["det"], rec["has"] = eq, det, has
 		rec["veq"], rec["vdet"], rec["vhas"] = true, true, true
-		rec["dup"] = 0
+		rec["dup"], rec["xdup"] = 0, 0
 		if !rep.Timeout && (out["k"] == "ok" || !eq || !det || !has) {
-			rec["dup"] = sharedPointers(res)
+			d, ptrs := sharedPointers(res)
+			rec["dup"], rec["xdup"] = d, sharedWithRetained(ptrs)
+		}
+		if rec["dup"] != 0 || rec["xdup"] != 0 {
+			// not a tree of its own objects any more: the tree abstraction (and any
+			// later step) is meaningless; the judge rejects this step
+			rec["post"] = map[string]any{"st": 1, "n": cur.Root.N, "jn": cur.Root.JN, "li": false, "cx": false, "pn": cur.Root.Pn, "h": cur.Root.H, "a": []int{}}
+			rec["posterr"] = ""
+			steps = append(steps, rec)
+			break
 		}
 		if val != nil {
 			rec["veq"], rec["vdet"], rec["vhas"] = vbefore.same(val)
@@ -372,6 +429,7 @@ func runBehaviour(pool *Pool, b Behaviour) map[string]any {
 		cur = post
 		curIdx = hashIndex(cur.Root, 0)
 	}
+	retain(res)
 	return map[string]any{"id": b.ID, "res": b.Res, "src": b.Src, "steps": steps}
 }
 
